@@ -39,7 +39,7 @@ META = {
 
 def engine_part(ctx):
     rng = ctx.rng
-    n = ctx.n(220, 1500)
+    n = ctx.n(180, 1500)
     cases, meta = [], []
     for i in range(n):
         shape, G = E.gen_graph(rng, E.SHAPES[i % len(E.SHAPES)] if i < 4 * len(E.SHAPES) else None)
@@ -73,11 +73,15 @@ def engine_part(ctx):
     # fresh runs of every goal that occurs last in some history, cache on and off
     fresh_idx = {}
     fresh_cases = []
+    n0 = len(cases) // 2          # case ci + n0 is the cache-flipped twin of case ci: same fresh runs
     for ci, c in enumerate(cases):
         for g in set(c[5]):
             for ca in (True, False):
-                fresh_idx[(ci, g, ca)] = len(fresh_cases)
-                fresh_cases.append((c[0], 40, ca, [], [], [g]))
+                if ci >= n0:
+                    fresh_idx[(ci, g, ca)] = fresh_idx[(ci - n0, g, ca)]
+                else:
+                    fresh_idx[(ci, g, ca)] = len(fresh_cases)
+                    fresh_cases.append((c[0], 40, ca, [], [], [g]))
     real, lines = E.run_real(cases + fresh_cases)
     rh, rf = real[:len(cases)], real[len(cases):]
     # the model is compared on every history and on a sample of the fresh runs
@@ -227,6 +231,29 @@ def solver_part(ctx):
                 elif pair["viol"] is None:
                     pair["viol"] = {"what": "recursive solver answers differently with the cache on and off",
                                     "program": text, "solver": "recursive cache on vs off (max_size 5)", "goal": gts[gi],
+                                    "cache_on": sx.to_sexp(a), "cache_off": sx.to_sexp(b), "shape": p.shape}
+    # ... and for every step of every history (same goal order on a cache-on and a cache-off solver)
+    hist_ans = {}
+    for (k, pi, sname, o), r in zip(index, res):
+        if k == "hist" and r is not None and sname in ("rec-ms5-cache", "rec-ms5-nocache"):
+            hist_ans[(pi, sname, o)] = [st["ans"] for st in r]
+    for (pi, sname, o), on in sorted(hist_ans.items(), key=lambda kv: (kv[0][0], kv[0][2])):
+        if sname != "rec-ms5-cache" or (pi, "rec-ms5-nocache", o) not in hist_ans:
+            continue
+        off = hist_ans[(pi, "rec-ms5-nocache", o)]
+        p, text, goals, gts = progs[pi]
+        for j, (a, b) in enumerate(zip(on, off)):
+            if H.is_death(a) or H.is_death(b) or "OverflowDepth" in (H.panic_kind(a), H.panic_kind(b)):
+                continue
+            ctx.count("cache-on-off-history", (text, o, j))
+            if a != b:
+                pair = per_pair.setdefault((pi, "rec-ms5-nocache"), {"viol": None, "known": None, "incon": 0, "n": 0})
+                if H.mixed_class(p, goals) and ctx.match_known(None, "F27-mixed-cycle"):
+                    pair["known"] = ("F27-mixed-cycle", {"program": text, "goal": gts[o[j]]})
+                elif pair["viol"] is None:
+                    pair["viol"] = {"what": "recursive solver answers differently with the cache on and off (same history)",
+                                    "program": text, "solver": "recursive cache on vs off (max_size 5)",
+                                    "history": [gts[x] for x in o], "goal": gts[o[j]],
                                     "cache_on": sx.to_sexp(a), "cache_off": sx.to_sexp(b), "shape": p.shape}
     nviol = 0
     for (pi, sname), pair in sorted(per_pair.items()):
